@@ -214,10 +214,10 @@ static void runSeq(std::istringstream& is, const char* cfgName)
 	typedef typename Cfg::Table Table; typedef typename Cfg::Row Row;
 	MMStats st; std::ostringstream out; bool first = true;
 	long live0 = Tracked::live.load();
-	size_t rowSize = 0, blockSize = 0, blockCount = 0; bool keep = Table::ColumnList::Settings::keepRowNumber;
+	size_t rowSize = 0, blockSize = 0, blockCount = 0, alignment = 0; bool keep = Table::ColumnList::Settings::keepRowNumber;
 	{
 		Table table(Cfg::make(&st));
-		rowSize = Cfg::rowSize(table); blockSize = table.mRawMemPool.GetBlockSize(); blockCount = Table::RawMemPool::Params::blockCount;
+		alignment = table.GetColumnList().GetAlignment(); rowSize = Cfg::rowSize(table); blockSize = table.mRawMemPool.GetBlockSize(); blockCount = Table::RawMemPool::Params::blockCount;
 		Ids ids; std::vector<Row> det; size_t created = 0; std::string op;
 		Table* cur = &table;                 // the table object that currently owns the crew (changes while the table is moved around)
 		const Row* extraObj = nullptr;       // a temporary Row object to be shown after the detached slots
@@ -383,7 +383,7 @@ static void runSeq(std::istringstream& is, const char* cfgName)
 		emit(ev);
 	}
 	out << " end|mm=" << st.bytes << "|ad=" << (long long)st.allocs - (long long)st.deallocs << "|lv=" << (Tracked::live.load() - live0)
-		<< "|cfg=" << cfgName << "|row=" << rowSize << "|block=" << blockSize << "|bc=" << blockCount << "|keep=" << (keep ? 1 : 0);
+		<< "|cfg=" << cfgName << "|row=" << rowSize << "|block=" << blockSize << "|bc=" << blockCount << "|keep=" << (keep ? 1 : 0) << "|al=" << alignment;
 	puts(out.str().c_str());
 }
 
